@@ -10,6 +10,9 @@ CHECKS = {
  "C02": dict(level="model_checking", technique="symbolic execution of the MIR of gm-sm4 into z3 bit-vector queries with the S-box uninterpreted; table checked exhaustively against the algebraic S-box",
              text="Key schedule, encrypt, decrypt ≡ GB/T 32907 for all keys / round keys / blocks; decrypt∘encrypt = encrypt∘decrypt = id proved on the code; cipher object unchanged and repeat calls agree (3-call histories); SBOX/FK/CK ground-checked; thorough adds Kani bit-precise re-proofs.",
              note="S-box uninterpreted in the equivalence queries (sound over-approximation); z3; MIR printer; spec model validated on the Annex example.", design="§2 C02", engine="mirsmt"),
+ "C07": dict(level="model_checking", technique="Kani/CBMC bounded model checking of the real mode code against textbook modes written in the harness; block cipher as a logging uninterpreted permutation",
+             text="For CFB/OFB/CTR/CBC and every listed data length (quick: 0,1,16,17,33; thorough up to 64) with symbolic key, IV and data: ciphertext equals the standard mode (CTR counter = 128-bit big-endian integer, all carries and wrap-around), output lengths, decrypt(encrypt(d)) = d; IV length != 16 is an error; CBC decryption rejects lengths that are not a positive multiple of 16 and final padding bytes outside 1..16, without panicking.",
+             note="E/D arbitrary injective pair (SM4 itself: C02); lengths above the bound not covered; CBMC/CaDiCaL.", design="§2 C07", engine="kani"),
  "C08": dict(level="model_checking", technique="symbolic execution of the MIR of gm-zuc into z3 queries: integer lemma chain for arithmetic mod 2^31-1, bit-vector queries for the wiring, one-step induction from an arbitrary state",
              text="add31/rot31 lemmas and both LFSR modes ≡ the mathematical feedback for all register states; ZUC::new ≡ spec initialisation for all keys/IVs; from an ARBITRARY generator state every request-size sequence with total <= 4 (thorough 6, incl. zero-length requests) returns the spec words and the spec successor state, independent of stale X; S0/S1/D ground-checked; official vectors through the executor.",
              note="S-boxes and LFSR feedback uninterpreted in the wiring queries (each discharged separately); 31-bit cell invariant; composition beyond the bound by induction argument.", design="§2 C08", engine="mirsmt"),
